@@ -305,7 +305,12 @@ fn global_option(rng: &mut Rng) -> String {
     if rng.chance(1, 2) {
         "-depth".into()
     } else {
-        format!("-threads {}", rng.range(1, 64))
+        match rng.below(10) {
+            // boundary values: "0" is a conventional spelling of "automatic"
+            0 => "-threads 0".to_string(),
+            1 => "-threads 999999999".to_string(), // large, but below the 10^9 clock floor
+            _ => format!("-threads {}", rng.range(1, 64)),
+        }
     }
 }
 
